@@ -22,3 +22,7 @@ M("c06_reservation_bounded", ["C06"], "alloc_bound", tier="quick", limit=2**40, 
   assumptions=["sizes that depend on fields of existing state, unmodelled calls/operators or loop-carried values are undecided, never violations",
                "constructors (::new, ::with_config, ::with_capacity: sizes from the configuration), the replication client (lengths announced by the master, not a client) and test modules are skipped"],
   fns=[r"."], skip=[r"closure", r"^const ", r"tests::", r"config::", r"main", r"::new$", r"::with_config$", r"::with_capacity$", r"replication"])
+M("c06_float_timeout_guarded", ["C06", "C13"], "float_guard", tier="quick", limit=1e11,
+  desc="every Duration::from_secs_f64(x) (BLPOP/BRPOP timeouts; panics on NaN, infinities, negative and too large values) is reached only with a finite x in [0, 1e11] seconds: x is an arbitrary IEEE-754 binary64 value (what str::parse::<f64> can return: 'inf', 'nan', '1e30' ...), comparisons follow IEEE semantics (every ordered comparison with NaN is false)",
+  assumptions=["floating-point arithmetic other than comparisons is not modelled (results arbitrary); the bound 1e11 s keeps the later Instant::now() + timeout far from Instant's range"],
+  skip=[r"tests::"])
